@@ -416,10 +416,23 @@ pub fn heap_drive(args: &[String]) {
     let start = arg_num(args, "--start-case", 0) as usize;
     let append = arg_num(args, "--append", 0) == 1;
     let per_run = arg_num(args, "--collections", 12) as usize;
+    // --cases FILE: the programs are read from an ndjson file ({prog}) instead of being generated
+    let cases: Option<Vec<J>> = arg_val(args, "--cases").map(|f| {
+        std::fs::read_to_string(f).expect("cases file").lines().filter(|l| !l.trim().is_empty())
+            .map(|l| serde_json::from_str::<J>(l).expect("case json")).collect()
+    });
     let mut w = TraceWriter::open(out, append, 30_000);
     for id in start..n {
         let mut rng = Rng::new(seed.wrapping_mul(7_919_117).wrapping_add(id as u64));
-        let p = Gen::new(&mut rng, Profile::named(&profile)).program();
+        let p = match &cases {
+            Some(cs) => {
+                if id >= cs.len() {
+                    break;
+                }
+                P::from_json(&cs[id]["prog"])
+            }
+            None => Gen::new(&mut rng, Profile::named(&profile)).program(),
+        };
         let compiled = match cao_lang::compiler::compile(p.to_module(), None) {
             Ok(c) => c,
             Err(_) => continue,
